@@ -25,6 +25,10 @@ def scenarios(rng, quick):
             sfx = {"n": "", "g": ".gz", "x": ".xz"}[comp]
             S.append(("stale-part/" + comp, base + q(1, pad) + " R:nm:1 " + q(2, pad) + " W D",
                       {"s0_o0" + sfx + ".part": "8365432d444e53" * 40, "s0_o1" + sfx + ".part": "00" * 5000}))
+            # the temporary name '<output>.part' cannot be opened (a directory sits there): the rotation must fail without ever
+            # writing under the final name - the earlier complete file of that name stays as it is at every crash point
+            S.append(("part-unopenable/" + comp, base + q(1, pad) + " R:nm:1 " + q(2, pad) + " W R:nm:0 " + q(3, pad) + " W D",
+                      {"s0_o1" + sfx: "0102030405", "DIR:s0_o1" + sfx + ".part": ""}))
             S.append(("rotate-after-flush/" + comp, base + " ".join(q(i, pad) for i in range(1, 4)) + " R:nm:1 " + q(5, pad) + " W R:nm:0 " + q(6, pad) + " D", {}))
     if not quick:
         for i in range(280):
@@ -142,7 +146,7 @@ def check(run):
     seen = set()
     S = scenarios(rng, quick)
     def pre_toks(pre):
-        return " ".join("PRE:%s=%s" % kv for kv in pre.items())
+        return " ".join(("PREDIR:%s" % k[4:]) if k.startswith("DIR:") else ("PRE:%s=%s" % (k, v)) for k, v in pre.items())
     full = run_os(["os full %s %s" % (pre_toks(pre), sess) for _, sess, pre in S])
     crash_lines, metas = [], []
     model_lines = []
